@@ -256,7 +256,15 @@ func init() {
 	wrap("C07", genC07Cache, OLin|ORange, false)
 	wrap("C08", genC08Cache, OCount, false)
 	c08 := scenarioGens["C08"]
-	scenarioGens["C08"] = func(tier string) []*Scenario { return append(c08(tier), genStaggered("C08")...) }
+	scenarioGens["C08"] = func(tier string) []*Scenario {
+		out := append(c08(tier), genStaggered("C08")...)
+		// Size of a table large enough to have more counter stripes than the minimum (16384+ root buckets)
+		for kind := 0; kind < 2; kind++ {
+			name := fmt.Sprintf("C08/resize-histories/%s/large-table", bulkKinds[kind])
+			out = append(out, &Scenario{Name: name, Prop: "C08", Seq: bulkSpec(name, kind, 0, 1, 40000, 2+lvlOf(tier), 0), ExpectOutcomes: 2})
+		}
+		return out
+	}
 	wrap("C13", genC13Cache, OTerm, false)
 	wrap("C16", genC16Cache, OMon|OLin, false)
 }
